@@ -1,6 +1,7 @@
 package props
 
 import (
+	"encoding/json"
 	"fmt"
 	"strings"
 
@@ -192,7 +193,32 @@ func (p c15) RunBatch(ctx *core.Ctx, batch int) {
 			e := e
 			ctx.Case(fmt.Sprintf("hand-built expression %d: %s", i, e.String()), func() { c15Fold(ctx, fmt.Sprintf("hand-built %d", i), e, true) })
 		}
+		// every explicit amount, 0 and 1 included, on every leaf and under every operator: the
+		// ~ / ^ node must be there and must make the stock renderers fail
+		for _, l := range qt.QuickLeaves() {
+			for _, a := range qt.FuzzyAmounts {
+				for _, t := range []*qt.Node{qt.FuzzyN(l, a), qt.And(qt.FuzzyN(l, a), qt.F("c", qt.Word("d"))), qt.Not(qt.FuzzyN(l, a)), qt.Or(qt.T(qt.Word("x")), qt.Must(qt.FuzzyN(l, a))), qt.BoostN(qt.FuzzyN(l, a), "2")} {
+					c15Tree(ctx, t, true)
+					ctx.Count("explicit_amount_trees", 1)
+				}
+			}
+			for _, a := range qt.BoostAmounts {
+				for _, t := range []*qt.Node{qt.BoostN(l, a), qt.And(qt.F("c", qt.Word("d")), qt.BoostN(l, a)), qt.MustNot(qt.BoostN(l, a)), qt.FuzzyN(qt.BoostN(l, a), 0)} {
+					c15Tree(ctx, t, true)
+					ctx.Count("explicit_amount_trees", 1)
+				}
+			}
+		}
 	}
+}
+
+// retyped returns base with its operator and right operand replaced: a shape the constructors
+// refuse to build (they promote it) but a JSON decoder or field-by-field assembly produces.
+func retyped(base *expr.Expression, op expr.Operator, right any) *expr.Expression {
+	c := *base
+	c.Op = op
+	c.Right = right
+	return &c
 }
 
 func c15HandBuilt() []*expr.Expression {
@@ -212,6 +238,18 @@ func c15HandBuilt() []*expr.Expression {
 		expr.LIKE("a", expr.WILD("x*")),
 		expr.LIKE("a", expr.REGEXP("/x/")),
 		expr.AND(expr.WILD("w*"), expr.REGEXP("/r/")),
+		// a node's function is chosen by the node's operator, whatever its operands are
+		retyped(expr.Eq("a", "x"), expr.Equals, expr.WILD("b*")),
+		retyped(expr.Eq("a", "x"), expr.Equals, expr.REGEXP("/r/")),
+		retyped(expr.Eq("a", "x"), expr.Like, expr.Lit("plain")),
+		retyped(expr.Eq("a", "x"), expr.Greater, expr.WILD("b?")),
+		retyped(expr.Eq("a", "x"), expr.LessEq, expr.REGEXP("/r/")),
+		expr.AND(retyped(expr.Eq("a", "x"), expr.Equals, expr.WILD("b*")), expr.Eq("c", "d")),
+		expr.NOT(retyped(expr.Eq("a", "x"), expr.Equals, expr.REGEXP("/r/"))),
+		expr.OR(expr.MUST(retyped(expr.Eq("a", "x"), expr.Equals, expr.WILD("*"))), expr.LIKE("e", expr.WILD("f*"))),
+		retyped(expr.Eq("a", "x"), expr.Equals, expr.Eq("b", "c")),
+		retyped(expr.Eq("a", "x"), expr.In, expr.Lit("not-a-list")),
+		retyped(expr.Eq("a", "x"), expr.And, expr.WILD("w*")),
 	}
 }
 
@@ -222,8 +260,19 @@ func c15Tree(ctx *core.Ctx, t *qt.Node, variants bool) {
 	if pe, err, ok := parse(ctx, text, ""); ok && err == nil {
 		exprs = append(exprs, pe)
 	}
+	// a third route: the JSON decoder, which re-types leaves from their text (a quoted "b*"
+	// comes back as a pattern under an unchanged EQUALS)
+	if len(exprs) == 2 {
+		if b, merr := json.Marshal(exprs[1]); merr == nil {
+			var d expr.Expression
+			if ctx.Call("UnmarshalJSON", func() { merr = json.Unmarshal(b, &d) }) && merr == nil {
+				exprs = append(exprs, &d)
+				ctx.Count("decoded_trees", 1)
+			}
+		}
+	}
 	for ei, e := range exprs {
-		ctx.Case(text, func() { c15Fold(ctx, text, e, variants && ei == 0) })
+		ctx.Case(text, func() { c15Fold(ctx, text, e, variants && ei != 1) })
 	}
 	// last clause: fuzzy / boost anywhere => both package-level renderers fail
 	hasFB := false
@@ -408,7 +457,7 @@ func (c15) Finish(res *core.Result, cov map[string]any) []string {
 	reasons := []string{}
 	cov["distinct_nontrivial"] = res.NDistinct("nontrivial")
 	cov["exhaustive"] = true
-	cov["rule"] = "depth<=2 trees over the leaf alphabet (exhaustive in the quick tier over 8 leaves; 1:8 sample over 27 leaves in the thorough tier) and random deeper trees, both built with the constructors and parsed, rendered by driver.Base with a tracing function per operator; the call log is replayed against the tree (one call per expression node, bottom-up, children's results as arguments, bare or in one pair of parentheses). For every operator: its function replaced (other calls must not change) and removed (error and no partial text iff the operator occurs). Queries with ~ or ^ through ToPostgres/ToParameterizedPostgres must fail. Non-trivial = distinct (removed operator, tree) where the operator occurs."
+	cov["rule"] = "depth<=2 trees over the leaf alphabet (exhaustive in the quick tier over 8 leaves; 1:8 sample over 27 leaves in the thorough tier) and random deeper trees (explicit ~/^ amounts including 0 and 1), hand-built and re-typed nodes (EQUALS over a pattern, LIKE over a plain value, …), built with the constructors, parsed, and decoded from their JSON encoding, rendered by driver.Base with a tracing function per operator; the call log is replayed against the tree (one call per expression node, bottom-up, children's results as arguments, bare or in one pair of parentheses). For every operator: its function replaced (other calls must not change) and removed (error and no partial text iff the operator occurs). Queries with ~ or ^ through ToPostgres/ToParameterizedPostgres must fail. Non-trivial = distinct (removed operator, tree) where the operator occurs."
 	floor(res.Counters["folds"] >= 1000, &reasons, "folds %d", res.Counters["folds"])
 	floor(res.Counters["fuzzy_boost_queries"] >= 500, &reasons, "fuzzy/boost queries %d", res.Counters["fuzzy_boost_queries"])
 	for _, op := range allOps {
